@@ -307,7 +307,22 @@ namespace straightener {
             minpos=l->scanpos;
         }
         typedef pair<double,Edge*> PosEdgePair;
-        set<PosEdgePair> sortedEdges;
+        // Order intersections at the same position by edge ID, rather than
+        // by pointer value, so the order in which dummy nodes are created
+        // doesn't depend on where the edges were allocated.
+        struct CmpPosEdgePair {
+            bool operator()(const PosEdgePair& lhs,
+                    const PosEdgePair& rhs) const {
+                if (lhs.first != rhs.first) {
+                    return lhs.first < rhs.first;
+                }
+                if (lhs.second->id != rhs.second->id) {
+                    return lhs.second->id < rhs.second->id;
+                }
+                return lhs.second < rhs.second;
+            }
+        };
+        set<PosEdgePair,CmpPosEdgePair> sortedEdges;
         for(unsigned i=0;i<openEdges.size();i++) {
             Edge *e=openEdges[i];
             vector<double> bs;
@@ -321,7 +336,7 @@ namespace straightener {
                 sortedEdges.insert(make_pair(*it,e));
             }
         }
-        for(set<PosEdgePair>::iterator i=sortedEdges.begin();i!=sortedEdges.end();i++) {
+        for(set<PosEdgePair,CmpPosEdgePair>::iterator i=sortedEdges.begin();i!=sortedEdges.end();i++) {
             double pos=i->first;
             if(pos < minpos) continue;
             if(pos > v->scanpos) break;
@@ -346,7 +361,7 @@ namespace straightener {
         if(r!=nullptr) {
             maxpos=r->scanpos;
         }
-        for(set<PosEdgePair>::iterator i=sortedEdges.begin();i!=sortedEdges.end();i++) {
+        for(set<PosEdgePair,CmpPosEdgePair>::iterator i=sortedEdges.begin();i!=sortedEdges.end();i++) {
             if(i->first < v->scanpos) continue;
             if(i->first > maxpos) break;
             double pos=i->first;
